@@ -1189,6 +1189,12 @@ footnote * footnote_new(const char * source, token * label, token * content, boo
 						switch (walker->type) {
 							case TEXT_NL:
 							case TEXT_NL_SP:
+								if (walker == content) {
+									// Nothing but newlines -- keep the first token
+									walker = NULL;
+									break;
+								}
+
 								content->tail = walker->prev;
 								token_free(walker);
 								walker = content->tail;
